@@ -285,7 +285,8 @@ def check_predict_tracking(chk, rep, repo):
 
 
 def check_mark_nodes(chk, rep, repo):
-    w = graph_walk(repo, "Subgraph", "mark_nodes")
+    from ..rules_premise import without_validation
+    w = without_validation(graph_walk(repo, "Subgraph", "mark_nodes"))
     fn = w.entry
     G = ("self",)
     ip = ("param", fn.params[1])
